@@ -489,6 +489,72 @@ def dep_truth(layout, groups):
     return gs, "either", None
 
 
+# ---- "ps" family: run-time part selects of every shape, one window bit or the whole window fed back into the value
+PS_SHAPES = (("b", 1), ("b", 2), ("b", 3), ("w", 1), ("w", 2))
+PS_SRCS = ("all", "lo", "hi")            # value = a, a[:L-1], a[1:]
+PS_OFFS = ("in", "a")                    # offset = free input, or the low bits of the looping signal itself
+PS_VIAS = ("direct", "via")              # value taken from a, or from b with b.eq(a)
+
+
+def ps_cases():
+    for kind, w in PS_SHAPES:
+        for L in (3, 4, 5, 6):
+            for signed in (False, True):
+                for ow in (1, 2, 3):
+                    for src in PS_SRCS:
+                        for offsrc in PS_OFFS:
+                            for via in PS_VIAS:
+                                for take in list(range(w)) + [-1]:
+                                    tw = w if take < 0 else 1
+                                    for t in range(0, L - tw + 1):
+                                        yield {"part": "ps", "kind": kind, "w": w, "L": L, "signed": signed, "ow": ow, "src": src,
+                                               "offsrc": offsrc, "via": via, "take": take, "t": t}
+
+
+def ps_sig(c):
+    return (f"ps:{c['kind']}sel{c['w']}:L{c['L']}{'s' if c['signed'] else 'u'}:ow{c['ow']}:val={c['src']}:off={c['offsrc']}:"
+            f"{c['via']}:take{'W' if c['take'] < 0 else c['take']}:t{c['t']}")
+
+
+def ps_groups(c):
+    """-> (layout, groups): a[t(:t+w)].eq(value.bit_select/word_select(offset, w)[take])"""
+    L, w = c["L"], c["w"]
+    via = c["via"] == "via"
+    layout = (L, L) if via else (L,)
+    a = list(range(L))
+    groups = []
+    srcn = a
+    if via:
+        b = list(range(L, 2 * L))
+        groups.append({"mod": "top", "dom": "comb", "conds": [], "assigns": [(("bits", b), ("cat",) + tuple(("n", v) for v in a))]})
+        srcn = b
+    srcn = {"all": srcn, "lo": srcn[:L - 1], "hi": srcn[1:]}[c["src"]]
+    value = ("cat",) + tuple(("n", v) for v in srcn)
+    offset = ("xw", c["ow"]) if c["offsrc"] == "in" else ("cat",) + tuple(("n", v) for v in a[:c["ow"]])
+    P = ("psel", c["kind"], value, bool(c["signed"]), offset, w)
+    if c["take"] < 0:
+        lhs, rhs = ("bits", a[c["t"]:c["t"] + w]), P
+    else:
+        lhs, rhs = ("bits", [a[c["t"]]]), ("sl", P, c["take"], c["take"] + 1)
+    groups.append({"mod": "top", "dom": "comb", "conds": [], "assigns": [(lhs, rhs)]})
+    return layout, groups
+
+
+def ps_truth(layout, groups):
+    """-> (graphs, verdict).  'CombinationalCycle' iff a bit reaches itself in the per-bit (precise) graph; 'ok' iff no bit
+    reaches itself even in the coarse word-level graph; 'either' in between (a loop that exists only under the coarse
+    reading of the part select -- unmodified amaranth reports it, the statement does not demand it)."""
+    node_sb = [(s, b) for s, w in enumerate(layout) for b in range(w)]
+    node_of = {sb: v for v, sb in enumerate(node_sb)}
+    st = flat_stmts(groups)
+    gs = {m: M.node_graph(st, list(layout), node_of, m) for m in ("word", "precise", "stridew")}
+    if M.find_cycle(gs["precise"]) is not None:
+        return gs, "CombinationalCycle"
+    if M.find_cycle(gs["word"]) is None:
+        return gs, "ok"
+    return gs, "either"
+
+
 def dep_sig(case):
     es = " ".join(f"{u}>{v}" for u, v in case["edges"])
     return f"dep:{case['style']}:L{''.join(map(str, case['layout']))}:[{es}]"
@@ -573,6 +639,11 @@ def build_dep(layout, groups):
             r = val(t[1]).bit_select(val(t[2]), t[3])
         elif k == "arr":
             r = Array([val(e) for e in t[2:]])[val(t[1])]
+        elif k == "psel":
+            v = val(t[2])
+            if t[3]:
+                v = v.as_signed()
+            r = v.bit_select(val(t[4]), t[5]) if t[1] == "b" else v.word_select(val(t[4]), t[5])
         elif k == "amem":
             addr = val(t[1])
             mem = Memory(shape=t[2], depth=1 << len(addr), init=[])
